@@ -67,10 +67,37 @@ def star_net(rng, n):
     return nets.Net([inputs[i] for i in order], out, dims, kind="star")
 
 
+def batch_net(rng, n):
+    """an output index carried by all tensors but one (a batch index); half of the time one of its carriers is a vector on
+    that index alone"""
+    vec = n >= 3 and rng.random() < 0.5
+    m = n - 1 if vec else n
+    if m < 2:
+        return None
+    base = nets.ordinary_net(rng, n=m, maxdim=rng.choice([3, 5]), n_out=rng.choice([0, 1]), hyper=False, max_rank=3)
+    inputs = [list(t) for t in base.inputs]
+    dims = list(base.dims)
+    dims.append(rng.randint(2, 5))
+    bix = len(dims)
+    skip = rng.randrange(m)
+    for t in range(m):
+        if t != skip:
+            inputs[t].insert(rng.randint(0, len(inputs[t])), bix)
+    if vec:
+        inputs.insert(rng.randint(0, m), [bix])
+    out = list(base.output)
+    out.insert(rng.randint(0, len(out)), bix)
+    return nets.Net(inputs, out, dims, kind="batch-output")
+
+
 def gen_net(rng, n, star=False):
     for _ in range(4000):
         r = rng.random()
-        if star or (r < 0.2 and n >= 4):
+        if not star and r > 0.85 and n <= 5:
+            net = batch_net(rng, n)
+            if net is None:
+                continue
+        elif star or (r < 0.2 and n >= 4):
             net = star_net(rng, n)
             if net is None:
                 continue
@@ -154,6 +181,44 @@ def run(run):
                     cases.append({"net": net.tla(), "obj": obj, "k": kk, "outer": outer,
                                   "ch": [[p, l, r] for p, (l, r) in ch.items()]})
                     descs.append(d)
+    # the class interface, one long-lived instance: calls with per-call overrides alternate with plain calls, which must use the
+    # options the instance was built with (and re-assigned attributes must take effect)
+    from cotengra.pathfinders.path_basic import OptimalOptimizer
+    inst = OptimalOptimizer(minimize="flops", search_outer=False)
+    kobj = {"flops": 0, "size": 0, "write": 0, "max": 0, "combo": 64, "limit": 64}
+    for _ in range(12 if quick else 120):
+        net = gen_net(rng, rng.choice([3, 4, 4, 5]), star=rng.random() < 0.3 and False)
+        steps = []
+        o_obj, o_outer = rng.choice(["size", "write", "combo", "max"]), rng.random() < 0.5
+        steps.append(("override", {"minimize": o_obj, "search_outer": o_outer}, None))
+        steps.append(("plain", {}, None))
+        if rng.random() < 0.3:
+            steps.append(("plain-after-reassigning-attributes", {}, (rng.choice(["flops", "write", "size"]), rng.random() < 0.5)))
+        for how, kw, reassign in steps:
+            if reassign is not None:
+                inst.minimize, inst.search_outer = reassign
+            # the options in force for THIS call: the per-call overrides, else the instance's attributes as they are now
+            obj, outer = kw.get("minimize", inst.minimize), kw.get("search_outer", inst.search_outer)
+            d = {"net": net.to_json(), "minimize": obj, "outer": bool(outer), "cost_cap": "instance", "entry": f"OptimalOptimizer instance ({how})"}
+            run.count()
+            run.nontrivial((net.eq(), str(net.dims), obj, outer, how, rng.random()))
+            try:
+                with core.watchdog(120):
+                    via = rng.choice(["ssa_path", "search", "call"])
+                    if via == "ssa_path":
+                        ssa = inst.ssa_path(net.c_inputs(), net.c_output(), net.c_sizes(), **kw)
+                    elif via == "search":
+                        ssa = inst.search(net.c_inputs(), net.c_output(), net.c_sizes(), **kw).get_ssa_path()
+                    else:
+                        from cotengra.pathfinders.path_basic import linear_to_ssa
+                        ssa = linear_to_ssa(inst(net.c_inputs(), net.c_output(), net.c_sizes(), **kw), net.N)
+                ch = nets.ssa_to_children([tuple(p) for p in ssa], net.N)
+            except Exception as e:
+                run.violation(f"OptimalOptimizer instance ({how}) raised {core.exc_text(e)} eq={net.eq()}", d, tags={"raised"})
+                continue
+            d["ssa"] = [list(map(int, p)) for p in ssa]
+            cases.append({"net": net.tla(), "obj": obj, "k": kobj[obj], "outer": bool(outer), "ch": [[p, l, r] for p, (l, r) in ch.items()]})
+            descs.append(d)
     # big cases (n >= 6) are slow to judge: smaller chunks
     verdicts, results = tla.judge_cases(f"c09_{run.tier}", "OptimalJudge", cases, chunk=40, maxpar=14, timeout=3000)
     for res in results:
@@ -165,7 +230,7 @@ def run(run):
         if v[0] == "network-outside-the-property":
             raise tla.MachineryError(f"generator produced a network outside C09's preconditions: {d}")
         if v[0] != "ok":
-            run.violation(f"optimal finder: {v[0]}: returned tree costs {v[1]} but the minimum over all "
+            run.violation(f"optimal finder{' - ' + d['entry'] if d.get('entry') else ''}: {v[0]}: returned tree costs {v[1]} but the minimum over all "
                           f"{'trees' if d['outer'] else 'outer-product-free trees'} is {v[2]} | eq={d['net']['eq']} dims={d['net']['dims']} "
                           f"minimize={d['minimize']} search_outer={d['outer']} cost_cap={d['cost_cap']} path={d.get('ssa')}",
                           d, tags={v[0], "obj:" + d["minimize"].split("-")[0]})
